@@ -30,10 +30,10 @@ CFG = {
                   "break), no_needless_split (a segment is divided only if its word part is wider than the line); for richtext the oracle "
                   "hypotheses are proved of the transcribed firstLineSegment, so its statements are unconditional. F44 and F45 were real "
                   "violations of line_width and are fixed in /repo (one commit each).",
-    "level_note": "Validated by correspondence only (not proved): draw_one_line_per_row (Text.Draw / RichText.Draw surfaces compared cell by cell "
-                  "with the model row loops and checked by the oracle against the scanner's own lines), HardwrapScanner (oracle: split at \\n), "
+    "level_note": "Validated by correspondence only (not proved): the complete Draw surface (findContainerSize, WriteCell clipping, Fill; compared cell "
+                  "by cell with the model and checked by the oracle against the scanner's own lines), HardwrapScanner (oracle: split at \\n), "
                   "the end-to-end Bool oracles hardBreakOK / noNeedlessSplit on real output. Modelled, not verified: tab inside an unbreakable word "
                   "(long-word split rewrites the tab as 8 spaces), CRLF terminator (only the LF rune is stripped), Max.Height clipping of Draw "
-                  "(C14's F39/F42 region; harness keeps Max.Height above the line count except for a few random cases).",
+                  "(C14's F39/F42 fixes are followed by the model: containerSize uses >=; the clipped regime is exercised by random Max.Height values).",
     "timeout": 1500,
 }
